@@ -41,6 +41,7 @@ type TxSpec struct {
 	Pad        int   `json:"pad"`       // extra instruction-data bytes
 	MetaPad    int   `json:"mpad"`      // extra incompressible log bytes in metadata
 	V0         bool  `json:"v0"`        // versioned (v0) message without address-table lookups
+	Lookups    bool  `json:"lookups"`   // versioned (v0) message with one address-table lookup (the loaded addresses are in the metadata)
 	SigPrefix  int   `json:"sigprefix"` // when > 0: force the first two signature bytes to uint16(SigPrefix-1), little endian
 }
 
@@ -360,8 +361,14 @@ func (b *builder) tx(bs BlockSpec, ts TxSpec, pos int) (*TxTruth, error) {
 			Instructions:    []solana.CompiledInstruction{{ProgramIDIndex: uint16(len(keys) - 1), Accounts: idx, Data: data}},
 		},
 	}
-	if ts.V0 {
+	if ts.V0 || ts.Lookups {
 		tx.Message.SetVersion(solana.MessageVersionV0)
+	}
+	if ts.Lookups {
+		tx.Message.AddressTableLookups = []solana.MessageAddressTableLookup{{AccountKey: Account(seed, 7000+ts.SigID%3), WritableIndexes: []uint8{0}, ReadonlyIndexes: []uint8{}}}
+		if len(ts.Loaded) == 0 {
+			ts.Loaded = []int{7100 + ts.SigID%5}
+		}
 	}
 	txb, err := tx.MarshalBinary()
 	if err != nil {
